@@ -15,7 +15,7 @@
      G. the BFS against the pruned unfolding (counts up to "1 versus >= 2")
      H. the main theorems and the examples *)
 From Coq Require Import List ZArith Bool Lia ZifyBool ZifyNat Permutation Sorted Arith.
-Require Import Tok Utf8 GoVal Autogen ObjProof.
+Require Import Tok Utf8 GoVal Marshal Autogen ObjProof.
 Import ListNotations.
 Open Scope Z_scope.
 
@@ -323,7 +323,7 @@ Proof.
   - rewrite Py in Hc. pose proof (cnt_in_pos p r x Hx Px). lia.
   - destruct (p z); [pose proof (cnt_in_pos p r x Hx Px); lia|]. apply IH; auto.
 Qed.
-Lemma cnt_le_incl_nodup {X} (p : X -> bool) l : (cnt p l <= length l)%nat.
+Lemma cnt_le_length {X} (p : X -> bool) l : (cnt p l <= length l)%nat.
 Proof. unfold cnt. induction l as [|x r IH]; cbn [filter length]; [lia|]. destruct (p x); cbn [length]; lia. Qed.
 
 Lemma filter_filter' {X} (p q : X -> bool) l : filter p (filter q l) = filter (fun x => q x && p x) l.
@@ -497,6 +497,7 @@ Proof.
   destruct H as (_ & Hm & _). specialize (Hm y HyL (eq_trans Hyn (eq_sym Hn))).
   specialize (Hmin c (proj1 (proj1 (Hsame c) Hcs)) Hn). lia.
 Qed.
+Print Assumptions select_name_spec.
 
 (* --- dedup_names, selected --- *)
 Lemma existsb_bytes_In x l : existsb (bytes_eqb x) l = true <-> In x l.
@@ -537,6 +538,7 @@ Proof.
     + assert (E : select_name all (c_name c) = Some c) by (apply select_name_spec; auto).
       rewrite E. left. reflexivity.
 Qed.
+Print Assumptions select_all_spec.
 
 Lemma select_all_names_NoDup all : NoDup (map c_name (select_all all)).
 Proof.
@@ -680,6 +682,7 @@ Proof.
       constructor; [exact IHs|]. rewrite Forall_forall. intros y Hy.
       clear Ed. assert (Ed : sel R d) by (apply Hdom; reflexivity). unfold name_lt. rewrite (HRn d (proj1 Ed)). apply Hgt. apply IHin in Hy. apply Hy.
 Qed.
+Print Assumptions dominate_spec.
 
 (* ====================================================================== *)
 (* D. the fields of one struct; the unfolding by levels                      *)
@@ -853,6 +856,7 @@ Proof.
   induction (embeds SE (route, id)) as [|p L IHL]; cbn [flat_map]; [apply Permutation_refl|].
   apply Permutation_app; [destruct p; apply IH|exact IHL].
 Qed.
+Print Assumptions unfold_full.
 
 (* ====================================================================== *)
 (* E. addressing: a route determines the field                               *)
@@ -1028,6 +1032,7 @@ Proof.
   - rewrite app_nil_r in Hs. rewrite Hs, Hat1 in Hat2. inversion Hat2; subst. congruence.
   - rewrite Hs, (field_at_prefix _ _ _ _ (x :: s) _ _ _ Hat1), Hc1 in Hat2; [discriminate|discriminate].
 Qed.
+Print Assumptions unfold_prefix_eq.
 
 Lemma is_prefix_refl a : is_prefix a a = true.
 Proof. induction a as [|x a IH]; [reflexivity|]. cbn [is_prefix]. rewrite Nat.eqb_refl. exact IH. Qed.
@@ -1186,6 +1191,7 @@ Proof.
     destruct Hy as [Hy|Hy]; [left|right; exact Hy].
     eapply Permutation_in; [apply Permutation_sym; exact HC|]. apply in_or_app. left. exact Hy.
 Qed.
+Print Assumptions full_vs_pruned.
 
 (* --- the pruned unfolding stops after at most [length SE] levels (pigeonhole on declared ids) --- *)
 Definition declared (SE : senv) (T : Z) : bool := match senv_get SE T with Some _ => true | None => false end.
@@ -1593,6 +1599,7 @@ Proof.
     + intros c Hc. apply in_app_or in Hc. apply in_or_app. destruct Hc as [Hc|Hc]; [left; auto|right; auto].
     + intros n dq tg. rewrite !cnt_app, cap2_add, Hcap, Hcap', <- cap2_add. reflexivity.
 Qed.
+Print Assumptions bfs_vs_pruned.
 
 Lemma Inv_root SE id : Inv SE 0 [([], id)] [] [] [([], id)] [].
 Proof.
@@ -1679,6 +1686,7 @@ Proof.
   - intros n d tg Hmin. rewrite (cnt_perm _ _ _ HU), I3, HRcap; [reflexivity|].
     intros y Hy. apply Hmin. eapply Permutation_in; [apply Permutation_sym; exact HU|exact Hy].
 Qed.
+Print Assumptions raw_vs_all.
 
 Theorem sel_raw_all SE id c : sel (all_cands SE id) c <-> sel (raw SE id) c.
 Proof. destruct (raw_vs_all SE id) as (H1 & H2 & H3). apply sel_transfer; assumption. Qed.
@@ -1690,6 +1698,7 @@ Proof.
   generalize (fold_right (insert_by g) [] l). intros m. induction m as [|y m IHm]; [reflexivity|].
   cbn [insert_by]. rewrite H, IHm. reflexivity.
 Qed.
+Print Assumptions sel_raw_all.
 
 Lemma StronglySorted_impl {X} (R R' : X -> X -> Prop) l :
   (forall x y, R x y -> R' x y) -> StronglySorted R l -> StronglySorted R' l.
@@ -1728,6 +1737,7 @@ Proof.
   rewrite explore_eq, sel_raw_all, <- (proj1 (dominated_spec SE id)).
   split; apply Permutation_in; [|apply Permutation_sym]; apply final_sort_perm.
 Qed.
+Print Assumptions explore_In.
 
 Theorem explore_iff_selected SE id mode c : In c (explore SE id mode) <-> In c (selected SE id).
 Proof. rewrite explore_In, selected_eq, select_all_spec. reflexivity. Qed.
@@ -1874,6 +1884,9 @@ Proof.
 Qed.
 Print Assumptions explore_sorted.
 
+Corollary explore_locally_sorted SE id mode : Sorted (fun x y => mode_lt mode x y = true) (explore SE id mode).
+Proof. apply StronglySorted_Sorted. apply explore_sorted. Qed.
+
 (* 5. the routes of an autogenerated entry are non-empty and pairwise unrelated *)
 Theorem autogen_entry_routes_ok SE id mode : entry_routes_ok (autogen_entry SE id mode) = true.
 Proof.
@@ -1896,3 +1909,165 @@ Proof.
       rewrite (unfold_prefix_eq SE (S (length SE)) id cb ca); auto.
 Qed.
 Print Assumptions autogen_entry_routes_ok.
+
+(* hence the token bound of ObjProof applies to atlases whose struct entries are all autogenerated *)
+Corollary autogen_atlas_routes_ok (A : atlas) :
+  (forall e, In e (a_entries A) ->
+     (exists SE id mode, e = autogen_entry SE id mode) \/ (match ae_kind e with EStruct _ => False | _ => True end)) ->
+  atlas_routes_ok A = true.
+Proof.
+  intros H. unfold atlas_routes_ok. apply forallb_forall. intros e He.
+  destruct (H e He) as [(SE & id & mode & ->)|Hk]; [apply autogen_entry_routes_ok|].
+  unfold entry_routes_ok. destruct (ae_kind e); [contradiction|reflexivity..].
+Qed.
+
+Corollary autogen_marshal_bounded (A : atlas) f t v ts :
+  (forall e, In e (a_entries A) ->
+     (exists SE id mode, e = autogen_entry SE id mode) \/ (match ae_kind e with EStruct _ => False | _ => True end)) ->
+  marshal A f t v = MOk ts -> (length ts + 1 <= 3 * gsize v)%nat.
+Proof. intros H. apply marshal_bounded_disjoint_routes. apply autogen_atlas_routes_ok. exact H. Qed.
+Print Assumptions autogen_marshal_bounded.
+
+(* ====================================================================== *)
+(* Examples (evaluated by the kernel)                                        *)
+(* ====================================================================== *)
+
+Definition show (l : list cand) := map (fun c => (c_name c, c_route c, c_tagged c)) l.
+Definition fld (name : bytes) (t : gtype) : sfield := SF name true false [] t.
+Definition emb (name : bytes) (t : gtype) : sfield := SF name true true [] t.
+Definition tagd (name tag : bytes) (t : gtype) : sfield := SF name true false tag t.
+
+(* T{X int64; A}  A{X string; Y int64}: the shallower X hides A.X, A.Y is promoted *)
+Definition ex_hide : senv :=
+  [(1, [fld [88] (GNum I64); emb [65] (GStruct 2)]);
+   (2, [fld [88] GStr; fld [89] (GNum I64)])].
+Example ex_shallower_hides_deeper :
+  show (explore ex_hide 1 0) = [([120], [0%nat], false); ([121], [1%nat; 1%nat], false)]
+  /\ show (all_cands ex_hide 1) = [([120], [0%nat], false); ([120], [1%nat; 0%nat], false); ([121], [1%nat; 1%nat], false)]
+  /\ explore_matches_spec ex_hide 1 0 = true.
+Proof. vm_compute. repeat split; reflexivity. Qed.
+
+(* T{A; B}  A{X; P}  B{X; Q}: X is ambiguous at depth 2 and disappears, P and Q stay *)
+Definition ex_ambig : senv :=
+  [(1, [emb [65] (GStruct 2); emb [66] (GStruct 3)]);
+   (2, [fld [88] (GNum I64); fld [80] (GNum I64)]);
+   (3, [fld [88] (GNum I64); fld [81] (GNum I64)])].
+Example ex_equal_depth_ambiguity :
+  show (explore ex_ambig 1 1) = [([112], [0%nat; 1%nat], false); ([113], [1%nat; 1%nat], false)]
+  /\ show (selected ex_ambig 1) = [([112], [0%nat; 1%nat], false); ([113], [1%nat; 1%nat], false)].
+Proof. vm_compute. split; reflexivity. Qed.
+
+(* T{A; B}  A{X `x`}  B{X}: same name "x" at the same depth, the tagged one wins *)
+Definition ex_tagged : senv :=
+  [(1, [emb [65] (GStruct 2); emb [66] (GStruct 3)]);
+   (2, [tagd [88] [120] (GNum I64)]);
+   (3, [fld [88] GStr])].
+Example ex_tagged_wins :
+  show (explore ex_tagged 1 0) = [([120], [0%nat; 0%nat], true)]
+  /\ map c_type (explore ex_tagged 1 0) = [GNum I64].
+Proof. vm_compute. split; reflexivity. Qed.
+(* ... but two tagged ones at the same depth annihilate *)
+Definition ex_tagged2 : senv :=
+  [(1, [emb [65] (GStruct 2); emb [66] (GStruct 3)]);
+   (2, [tagd [88] [120] (GNum I64)]);
+   (3, [tagd [89] [120] GStr])].
+Example ex_two_tagged_annihilate : explore ex_tagged2 1 0 = [] /\ selected ex_tagged2 1 = [].
+Proof. vm_compute. split; reflexivity. Qed.
+
+(* the diamond T{A; B} A{C} B{C} C{X; D} D{Y}: C is reached along two paths, so C.X is ambiguous, and
+   so is everything below C (D.Y), although D is embedded only once in C (D19) *)
+Definition ex_diamond : senv :=
+  [(1, [emb [65] (GStruct 2); emb [66] (GStruct 3)]);
+   (2, [emb [67] (GStruct 4)]);
+   (3, [emb [67] (GStruct 4)]);
+   (4, [fld [88] (GNum I64); emb [68] (GStruct 5)]);
+   (5, [fld [89] (GNum I64)])].
+Example ex_diamond_nested :
+  explore ex_diamond 1 0 = [] /\ selected ex_diamond 1 = []
+  /\ show (raw ex_diamond 1) = [([120], [0%nat; 0%nat; 0%nat], false); ([120], [0%nat; 0%nat; 0%nat], false);
+                                 ([121], [0%nat; 0%nat; 1%nat; 0%nat], false); ([121], [0%nat; 0%nat; 1%nat; 0%nat], false)]
+  /\ show (all_cands ex_diamond 1) = [([120], [0%nat; 0%nat; 0%nat], false); ([121], [0%nat; 0%nat; 1%nat; 0%nat], false);
+                                       ([120], [1%nat; 0%nat; 0%nat], false); ([121], [1%nat; 0%nat; 1%nat; 0%nat], false)].
+Proof. vm_compute. repeat split; reflexivity. Qed.
+(* the diamond with a shallower Y beside it: T{A; B; Y} — Y at depth 1 is selected, the ambiguous ones vanish *)
+Definition ex_diamond_y : senv :=
+  (0, [emb [65] (GStruct 2); emb [66] (GStruct 3); fld [89] GStr]) :: ex_diamond.
+Example ex_diamond_shallow_y : show (explore ex_diamond_y 0 0) = [([121], [2%nat], false)]
+  /\ explore_matches_spec ex_diamond_y 0 0 = true.
+Proof. vm_compute. split; reflexivity. Qed.
+
+(* a pointer cycle: type T struct { X int64; *T } — the BFS visits T once; the unfolding (cut at depth 2)
+   also lists T.T.X, which the shallower X hides *)
+Definition ex_cycle : senv := [(1, [fld [88] (GNum I64); emb [84] (GPtr (GStruct 1))])].
+Example ex_pointer_cycle :
+  show (explore ex_cycle 1 0) = [([120], [0%nat], false)]
+  /\ show (all_cands ex_cycle 1) = [([120], [0%nat], false); ([120], [1%nat; 0%nat], false)]
+  /\ show (selected ex_cycle 1) = [([120], [0%nat], false)].
+Proof. vm_compute. repeat split; reflexivity. Qed.
+(* a longer cycle through two types, entered from a third: R{A} A{X; *B} B{Y; *A; X} *)
+Definition ex_cycle2 : senv :=
+  [(1, [emb [65] (GStruct 2)]);
+   (2, [fld [88] (GNum I64); emb [66] (GPtr (GStruct 3))]);
+   (3, [fld [89] (GNum I64); emb [65] (GPtr (GStruct 2)); fld [88] GStr])].
+Example ex_two_type_cycle :
+  show (explore ex_cycle2 1 0) = [([120], [0%nat; 0%nat], false); ([121], [0%nat; 1%nat; 0%nat], false)]
+  /\ explore_matches_spec ex_cycle2 1 0 = true.
+Proof. vm_compute. split; reflexivity. Qed.
+
+(* environments that are not well formed are covered as well (no hypothesis on SE is needed):
+   an embedded struct id that is not declared, and an id declared twice (the first declaration counts) *)
+Definition ex_illformed : senv :=
+  [(1, [emb [65] (GStruct 7); fld [88] GStr; emb [66] (GStruct 2)]); (2, [fld [89] GStr]); (2, [fld [90] GStr])].
+Example ex_illformed_env :
+  show (explore ex_illformed 1 0) = [([120], [1%nat], false); ([121], [2%nat; 0%nat], false)]
+  /\ explore_matches_spec ex_illformed 1 0 = true /\ explore ex_illformed 9 0 = [].
+Proof. vm_compute. repeat split; reflexivity. Qed.
+
+(* skipped fields and D18: unexported plain field, tag "-", embedded unexported non-struct are skipped;
+   an embedded struct of unexported type is never a field itself, even when tagged: only its fields are promoted *)
+Definition ex_skips : senv :=
+  [(1, [SF [120] false false [] GStr;                 (* x string (unexported) *)
+        SF [89] true false [45] GStr;                 (* Y string `-` *)
+        SF [109] false true [] (GNamed 50 GStr);      (* embedded unexported non-struct *)
+        SF [105] false true [116] (GStruct 2);        (* embedded unexported struct, tagged "t" *)
+        SF [90] true false [122;44;111;109;105;116;101;109;112;116;121] GStr]);   (* Z string `z,omitempty` *)
+   (2, [fld [87] GStr])].
+Example ex_skipped_fields :
+  map (fun c => (c_name c, c_route c, c_omit c)) (explore ex_skips 1 0)
+  = [([119], [3%nat; 0%nat], false); ([122], [4%nat], true)].
+Proof. vm_compute. reflexivity. Qed.
+
+(* 14 fields, mode 2 (RFC 7049 canonical: shorter names first, then bytewise), against modes 1 and 0 *)
+Definition ex_14 : senv :=
+  [(1, [fld [78] GStr;                  (* N  -> n *)
+        fld [66;66] GStr;               (* BB -> bB *)
+        fld [65;65;65] GStr;            (* AAA -> aAA *)
+        fld [77] GStr;                  (* M -> m *)
+        fld [67;67] GStr;               (* CC -> cC *)
+        fld [65;66] GStr;               (* AB -> aB *)
+        fld [90] GStr;                  (* Z -> z *)
+        fld [65;65;65;65] GStr;         (* AAAA -> aAAA *)
+        fld [66] GStr;                  (* B -> b *)
+        fld [65;67] GStr;               (* AC -> aC *)
+        fld [89;89;89] GStr;            (* YYY -> yYY *)
+        fld [65] GStr;                  (* A -> a *)
+        fld [68;65] GStr;               (* DA -> dA *)
+        fld [75] GStr])].               (* K -> k *)
+Example ex_14_fields_mode2 :
+  map c_name (explore ex_14 1 2)
+  = [[97]; [98]; [107]; [109]; [110]; [122]; [97;66]; [97;67]; [98;66]; [99;67]; [100;65]; [97;65;65]; [121;89;89]; [97;65;65;65]]
+  /\ map c_name (explore ex_14 1 1)
+  = [[97]; [97;65;65]; [97;65;65;65]; [97;66]; [97;67]; [98]; [98;66]; [99;67]; [100;65]; [107]; [109]; [110]; [121;89;89]; [122]]
+  /\ map c_route (explore ex_14 1 0)
+  = [[0]; [1]; [2]; [3]; [4]; [5]; [6]; [7]; [8]; [9]; [10]; [11]; [12]; [13]]%nat
+  /\ length (explore ex_14 1 2) = 14%nat.
+Proof. vm_compute. repeat split; reflexivity. Qed.
+
+(* the route of a selected field addresses it *)
+Example ex_field_at :
+  field_at ex_hide 1 [] [1%nat; 1%nat] = Some ([1%nat], 1%nat, fld [89] (GNum I64))
+  /\ classify [1%nat] 1 (fld [89] (GNum I64)) = FCand (Cand [121] [1%nat; 1%nat] (GNum I64) false false).
+Proof. vm_compute. split; reflexivity. Qed.
+
+Example ex_entry_routes_ok : entry_routes_ok (autogen_entry ex_cycle2 1 2) = true.
+Proof. vm_compute. reflexivity. Qed.
